@@ -5,6 +5,7 @@ package simrt
 
 import (
 	"github.com/zerx-lab/wordZero/pkg/verifrt"
+	"time"
 
 	"verif/sim"
 	"verif/sim/sched"
@@ -88,6 +89,53 @@ func Uninstall() {
 	verifrt.IOHook = nil
 	verifrt.IOFault = nil
 	verifrt.PointHook = nil
+}
+
+// ---- simulated clock ----------------------------------------------------------------------
+
+// Clock policies.
+const (
+	ClockSteady = iota // every read is one second after the previous one
+	ClockJumps         // every read is up to two days before or after the previous one (clock steps, skew between hosts)
+	ClockStuck         // every read returns the same instant
+)
+
+var (
+	clkReads  int64
+	clkNow    int64
+	clkState  uint64
+	clkPolicy int
+)
+
+// ClockReads is how often the library read the simulated clock since InstallClock.
+//
+//go:norace
+func ClockReads() int64 { return clkReads }
+
+// InstallClock puts the library on a simulated clock for the rest of the process (re-installed per run): the instants
+// are a function of seed, policy and the number of reads only. It is not removed by Uninstall: a run has one clock.
+//
+//go:norace
+func InstallClock(seed uint64, policy int) {
+	clkReads, clkNow, clkState, clkPolicy = 0, 1_700_000_000, seed|1, policy
+	verifrt.NowHook = simNow
+}
+
+//go:norace
+func simNow() time.Time {
+	clkReads++
+	switch clkPolicy {
+	case ClockSteady:
+		clkNow++
+	case ClockJumps:
+		clkState += 0x9E3779B97F4A7C15
+		z := clkState
+		z = (z ^ (z >> 30)) * 0xBF58476D1CE4E5B9
+		z = (z ^ (z >> 27)) * 0x94D049BB133111EB
+		z ^= z >> 31
+		clkNow += int64(z%(4*86400)) - 2*86400
+	}
+	return time.Unix(clkNow, 0).UTC()
 }
 
 // InstallPoints makes the preemption points of the instrumented library yield to s about every mean points
